@@ -947,6 +947,22 @@ func (x *c20) ub1(ctx *c20ctx, e ast.Expr) c20B {
 		if isBuiltinCall(info, v, "len") && len(v.Args) == 1 {
 			return x.lenBound(ctx, v.Args[0])
 		}
+		// slices.Index / IndexFunc / BinarySearch…, strings/bytes Index…: the result is -1 or an index
+		// of the first argument, hence at most len(arg0)-1 (the sign is left to the guards of the use)
+		if fn := callee(info, v); fn != nil && fn.Pkg() != nil && len(v.Args) >= 1 {
+			pk, name := fn.Pkg().Path(), fn.Name()
+			if i := strings.IndexByte(name, '['); i >= 0 {
+				name = name[:i]
+			}
+			if (pk == "slices" || pk == "strings" || pk == "bytes") && (strings.HasPrefix(name, "Index") || strings.HasPrefix(name, "LastIndex")) {
+				lb := x.lenBound(ctx, v.Args[0])
+				if lb.max < c20Inf && lb.max > 0 {
+					lb.max--
+				}
+				lb.nonneg = false
+				return clamp(lb)
+			}
+		}
 		if fn := callee(info, v); fn != nil {
 			if b, ok := x.resultBound(ctx, fn, 0); ok {
 				return clamp(b)
